@@ -678,6 +678,8 @@ class Crate:
         self.config = j['config']
         self.built = [Fn(self, f, 'built') for f in j['built']]
         self.elab = [Fn(self, f, 'elab') for f in j['elab']]
+        # initialisers of named consts / statics (MIR bodies, not part of `built`)
+        self.consts = {norm(f['path']): Fn(self, f, 'built') for f in (j.get('consts') or [])}
         self.items = j['items']
         self.ast = j['ast']
         self.adts = {norm(a['path']): a for a in self.items['adts']}
